@@ -17,64 +17,69 @@ package jsonpatch
 //@ ginv sentinel-expectedobject: ErrExpectedObject != nil && !isInvalid(ErrExpectedObject) && !isMissing(ErrExpectedObject) && !isTestFailed(ErrExpectedObject) && !isInvalidIndex(ErrExpectedObject) && !isCopyLimit(ErrExpectedObject)
 
 //@ func (*partialArray).get
-//@   requires recv: d != nil && options != nil
+//@   requires recv: options != nil
 //@   modifies nothing
+//@   ensures[C04,C08] nil-document: d == nil ==> err != nil && result.0 == nil && isInvalid(err)
 //@   let n = len(d.nodes)
 //@   let neg = options.SupportNegativeIndices
-//@   ensures[C01,C13] ok-iff: key != "" ==> ((err == nil) <==> idxRefOK(key, n, neg))
-//@   ensures[C01] value: key != "" && err == nil ==> result.0 == d.nodes[idxRefVal(key, n)]
-//@   ensures[C01] empty-token: key == "" ==> err == nil && result.0 == d.self
+//@   ensures[C01,C13] ok-iff: d != nil && key != "" ==> ((err == nil) <==> idxRefOK(key, n, neg))
+//@   ensures[C01] value: d != nil && key != "" && err == nil ==> result.0 == d.nodes[idxRefVal(key, n)]
+//@   ensures[C01] empty-token: d != nil && key == "" ==> err == nil && result.0 == d.self
 //@   ensures[C01,C08] nil-on-error: err != nil ==> result.0 == nil
 //@   ensures[C04] child: childOK(result.0)
 //@   ensures[C08] attrs: !isTestFailed(err) && !isMissing(err) && !isCopyLimit(err)
-//@   ensures[C08] invalid-index: err != nil && atoiOK(key) ==> isInvalidIndex(err)
+//@   ensures[C08] invalid-index: d != nil && err != nil && atoiOK(key) ==> isInvalidIndex(err)
 
 //@ func (*partialArray).set
-//@   requires recv: d != nil && options != nil
-//@   requires args: allocated(d) && childOK(val)
-//@   requires exists: idxRefOK(key, len(d.nodes), options.SupportNegativeIndices)
+//@   requires recv: options != nil
+//@   requires args: (d == nil || allocated(d)) && childOK(val)
+//@   requires exists: d != nil && atoiOK(key) ==> idxRefOK(key, len(d.nodes), options.SupportNegativeIndices)
 //@   modifies elems(d.nodes)
 //@   let n = len(d.nodes)
-//@   ensures[C01] ok: err == nil
-//@   ensures[C01] header: d.nodes == old(d.nodes)
-//@   ensures[C01] at: d.nodes[idxRefVal(key, n)] == val
-//@   ensures[C01,C05] others: forall j int :: 0 <= j && j < n && j != idxRefVal(key, n) ==> d.nodes[j] == old(d.nodes[j])
+//@   ensures[C04,C08] nil-document: d == nil ==> err != nil && isInvalid(err)
+//@   ensures[C01] ok: d != nil ==> ((err == nil) <==> atoiOK(key))
+//@   ensures[C01] header: d != nil ==> d.nodes == old(d.nodes)
+//@   ensures[C01] at: d != nil && err == nil ==> d.nodes[idxRefVal(key, n)] == val
+//@   ensures[C01,C05] others: d != nil ==> forall j int :: 0 <= j && j < n && (err != nil || j != idxRefVal(key, n)) ==> d.nodes[j] == old(d.nodes[j])
+//@   ensures[C08] attrs: !isTestFailed(err) && !isMissing(err) && !isCopyLimit(err)
 
 //@ func (*partialArray).add
-//@   requires recv: d != nil && options != nil
-//@   requires args: allocated(d) && childOK(val)
+//@   requires recv: options != nil
+//@   requires args: (d == nil || allocated(d)) && childOK(val)
+//@   ensures[C04,C08] nil-document: d == nil ==> err != nil && isInvalid(err)
 //@   modifies d.nodes, elems(d.nodes)
 //@   let n = old(len(d.nodes))
 //@   let neg = options.SupportNegativeIndices
 //@   let ix = idxAddVal(key, n)
-//@   ensures[C01] ok-iff: (err == nil) <==> idxAddOK(key, n, neg)
-//@   ensures[C01] len: err == nil ==> len(d.nodes) == n + 1
-//@   ensures[C01] at: err == nil ==> d.nodes[ix] == val
-//@   ensures[C01,C05] below: err == nil ==> forall j int :: 0 <= j && j < ix ==> d.nodes[j] == old(d.nodes[j])
-//@   ensures[C01,C05] above: err == nil ==> forall j int :: ix < j && j <= n ==> d.nodes[j] == old(d.nodes[j-1])
-//@   ensures[C01,C08] unchanged-on-error: err != nil ==> d.nodes == old(d.nodes)
-//@   ensures[C01,C05] old-cells-kept: forall j int :: 0 <= j && j < n ==> old(d.nodes)[j] == old(d.nodes[j])
+//@   ensures[C01] ok-iff: d != nil ==> ((err == nil) <==> idxAddOK(key, n, neg))
+//@   ensures[C01] len: d != nil && err == nil ==> len(d.nodes) == n + 1
+//@   ensures[C01] at: d != nil && err == nil ==> d.nodes[ix] == val
+//@   ensures[C01,C05] below: d != nil && err == nil ==> forall j int :: 0 <= j && j < ix ==> d.nodes[j] == old(d.nodes[j])
+//@   ensures[C01,C05] above: d != nil && err == nil ==> forall j int :: ix < j && j <= n ==> d.nodes[j] == old(d.nodes[j-1])
+//@   ensures[C01,C08] unchanged-on-error: d != nil && err != nil ==> d.nodes == old(d.nodes)
+//@   ensures[C01,C05] old-cells-kept: d != nil ==> forall j int :: 0 <= j && j < n ==> old(d.nodes)[j] == old(d.nodes[j])
 //@   ensures[C08] attrs: !isTestFailed(err) && !isMissing(err) && !isCopyLimit(err)
-//@   ensures[C08] invalid-index: err != nil && atoiOK(key) ==> isInvalidIndex(err)
+//@   ensures[C08] invalid-index: d != nil && err != nil && atoiOK(key) ==> isInvalidIndex(err)
 
 //@ func (*partialArray).remove
-//@   requires recv: d != nil && options != nil
-//@   requires args: allocated(d)
+//@   requires recv: options != nil
+//@   requires args: d == nil || allocated(d)
+//@   ensures[C04,C08] nil-document: d == nil ==> err != nil && isInvalid(err)
 //@   modifies d.nodes
 //@   let n = old(len(d.nodes))
 //@   let neg = options.SupportNegativeIndices
 //@   let allow = options.AllowMissingPathOnRemove
 //@   let ix = idxRefVal(key, n)
 //@   let beyond = atoiOK(key) && (atoiVal(key) >= n || (neg && atoiVal(key) < 0 - n))
-//@   ensures[C01,C13] removes-iff: idxRefOK(key, n, neg) ==> err == nil && len(d.nodes) == n - 1
-//@   ensures[C01,C13] below: idxRefOK(key, n, neg) ==> forall j int :: 0 <= j && j < ix ==> d.nodes[j] == old(d.nodes[j])
-//@   ensures[C01,C13] above: idxRefOK(key, n, neg) ==> forall j int :: ix <= j && j < n - 1 ==> d.nodes[j] == old(d.nodes[j+1])
-//@   ensures[C01,C13] unchanged-otherwise: !idxRefOK(key, n, neg) ==> d.nodes == old(d.nodes)
-//@   ensures[C13] absent-skipped: !idxRefOK(key, n, neg) && beyond && allow ==> err == nil
-//@   ensures[C01,C13] absent-fails: !idxRefOK(key, n, neg) && !(beyond && allow) ==> err != nil
+//@   ensures[C01,C13] removes-iff: d != nil && idxRefOK(key, n, neg) ==> err == nil && len(d.nodes) == n - 1
+//@   ensures[C01,C13] below: d != nil && idxRefOK(key, n, neg) ==> forall j int :: 0 <= j && j < ix ==> d.nodes[j] == old(d.nodes[j])
+//@   ensures[C01,C13] above: d != nil && idxRefOK(key, n, neg) ==> forall j int :: ix <= j && j < n - 1 ==> d.nodes[j] == old(d.nodes[j+1])
+//@   ensures[C01,C13] unchanged-otherwise: d != nil && !idxRefOK(key, n, neg) ==> d.nodes == old(d.nodes)
+//@   ensures[C13] absent-skipped: d != nil && !idxRefOK(key, n, neg) && beyond && allow ==> err == nil
+//@   ensures[C01,C13] absent-fails: d != nil && !idxRefOK(key, n, neg) && !(beyond && allow) ==> err != nil
 //@   ensures[C08] attrs: !isTestFailed(err) && !isMissing(err) && !isCopyLimit(err)
-//@   ensures[C08] invalid-index: err != nil && atoiOK(key) ==> isInvalidIndex(err)
-//@   ensures[C01,C05] old-cells-kept: forall j int :: 0 <= j && j < n ==> old(d.nodes)[j] == old(d.nodes[j])
+//@   ensures[C08] invalid-index: d != nil && err != nil && atoiOK(key) ==> isInvalidIndex(err)
+//@   ensures[C01,C05] old-cells-kept: d != nil ==> forall j int :: 0 <= j && j < n ==> old(d.nodes)[j] == old(d.nodes[j])
 
 //@ func (*partialDoc).get
 //@   requires recv: d != nil
@@ -414,3 +419,29 @@ package jsonpatch
 //@   ensures[C12] total: *accumulatedCopySize >= old(*accumulatedCopySize)
 //@   bind con = findObject#1.0
 //@   ensures[C08] missing-parent: reached(findObject#1) && con == nil ==> isMissing(err) && !isCopyLimit(err)
+
+// ---- structural equality of two nodes (C06) ----
+
+//@ func (*lazyNode).equal
+//@   requires recv: nodeOK(n) && (n.which == eAry ==> n.ary != nil)
+//@   requires other: o == nil || (nodeOK(o) && (o.which == eAry ==> o.ary != nil))
+//@   modifies region(lazyNode.which), region(lazyNode.doc), region(lazyNode.ary), region(partialDoc.obj), region(partialDoc.keys), region(partialArray.nodes)
+//@   ensures[C01,C05] parsed-untouched: forall m *lazyNode {m.which} {m.doc} {m.ary} :: (old(allocated(m) && m.which == eDoc) ==> m.which == eDoc && m.doc == old(m.doc)) && (old(allocated(m) && m.which == eAry) ==> m.which == eAry && m.ary == old(m.ary))
+//@   ensures[C01,C05] docs-untouched: forall d *partialDoc {d.obj} {d.keys} :: old(allocated(d) && d.obj != nil) ==> d.obj == old(d.obj) && d.keys == old(d.keys)
+//@   ensures[C01,C05] arrays-untouched: forall a *partialArray {a.nodes} :: old(allocated(a) && a.nodes != nil) ==> a.nodes == old(a.nodes)
+//@   ensures[C01,C04] children-stable: forall c *lazyNode {c.which} :: old(childOK(c)) ==> childOK(c)
+//@   loop 1
+//@   invariant parsed-untouched: forall m *lazyNode {m.which} {m.doc} {m.ary} :: (old(allocated(m) && m.which == eDoc) ==> m.which == eDoc && m.doc == old(m.doc)) && (old(allocated(m) && m.which == eAry) ==> m.which == eAry && m.ary == old(m.ary))
+//@   invariant docs-untouched: forall d *partialDoc {d.obj} {d.keys} :: old(allocated(d) && d.obj != nil) ==> d.obj == old(d.obj) && d.keys == old(d.keys)
+//@   invariant arrays-untouched: forall a *partialArray {a.nodes} :: old(allocated(a) && a.nodes != nil) ==> a.nodes == old(a.nodes)
+//@   invariant children-stable: forall c *lazyNode {c.which} :: old(childOK(c)) ==> childOK(c)
+//@   invariant both-objects: n.which == eDoc && o.which == eDoc && n.doc != nil && o.doc != nil
+//@   loop 2
+//@   invariant parsed-untouched: forall m *lazyNode {m.which} {m.doc} {m.ary} :: (old(allocated(m) && m.which == eDoc) ==> m.which == eDoc && m.doc == old(m.doc)) && (old(allocated(m) && m.which == eAry) ==> m.which == eAry && m.ary == old(m.ary))
+//@   invariant docs-untouched: forall d *partialDoc {d.obj} {d.keys} :: old(allocated(d) && d.obj != nil) ==> d.obj == old(d.obj) && d.keys == old(d.keys)
+//@   invariant arrays-untouched: forall a *partialArray {a.nodes} :: old(allocated(a) && a.nodes != nil) ==> a.nodes == old(a.nodes)
+//@   invariant children-stable: forall c *lazyNode {c.which} :: old(childOK(c)) ==> childOK(c)
+//@   invariant both-arrays: n.which == eAry && o.which == eAry && n.ary != nil && o.ary != nil && len(n.ary.nodes) == len(o.ary.nodes) && n.ary.nodes == atentry(n.ary.nodes) && o.ary.nodes == atentry(o.ary.nodes)
+
+//@ func Equal
+//@   ensures[C06,C16] ill-formed: !wf(a) || !wf(b) ==> !result
